@@ -9,7 +9,7 @@ import itertools
 
 from multidecoder.node import Node
 
-TYPES = ("", "string", "vba.string", "strings", "x")
+TYPES = ("", "string", "vba.string", "strings", "x", "substring")
 
 
 def mk(spec) -> Node:
